@@ -24,6 +24,7 @@ RULE = (
     ' Round 8: numeric/odd id-request payloads; `two-gateways` kind.'
     ' Round 9: traffic / gateway messages / flags / sessions between requests; a node that vanishes from the registry without the application removing it is reported.'
     ' Round 10: registry and presented nodes of every node type.'
+    ' Round 11: environment sweep (see C03) incl. the registry grown through update / setdefault / |=.'
 )
 ASSUMPTIONS = ["the allocation policy itself is not fixed by the statement: any fresh id in 1..254 is accepted"]
 DELETABLE = ("ops", "fail_answers")
